@@ -8,7 +8,7 @@
    The numerical part of a solve is abstracted to "touches the whole n-based extent of every array";
    actual memory behaviour of the real library is explored by checks/C15.py under ASan/LSan. *)
 Require Import ZArith List Bool.
-Require Import MPSV.Ctx.ResizeModel MPSV.Ctx.ResizeProofs.
+Require Import MPSV.Ctx.ResizeModel MPSV.Ctx.ResizeProofs MPSV.Ctx.ApiModel MPSV.Ctx.ApiProofs.
 Import ListNotations.
 Open Scope Z_scope.
 
@@ -82,8 +82,118 @@ Theorem C15_sticky_error_flag : forall v s, s.(ctx) = true -> s.(err) = true ->
 Proof. exact error_flag_makes_solve_noop. Qed.
 Print Assumptions C15_sticky_error_flag.
 
+(* Repaired in round 6: the statement used to claim the error for every input of the secular algorithm.  As coded,
+   "Exit forced by the caller" (secular-ga.c:409) is reached only when the input IS a secular equation; for polynomial
+   input mps_secular_ga_check_stop (:78, called at :295) makes the function return after the first Aberth packet
+   without any error (next theorem).  The abort op was not part of the checked tie before, so the model had not been
+   compared with the code on this branch; it is now (sessions error_between / random abort). *)
 Theorem C15_sticky_exit_flag : forall s, Inv s -> s.(ctx) = true -> s.(have_poly) = true ->
-  s.(err) = false -> s.(exitreq) = true -> s.(alg) = AlgoS ->
+  s.(err) = false -> s.(exitreq) = true -> s.(alg) = AlgoS -> s.(kind) = KSecular ->
   (fst (step Fixed s OSolve)).(err) = true.
 Proof. exact exit_flag_makes_secular_solve_fail. Qed.
 Print Assumptions C15_sticky_exit_flag.
+
+Theorem C15_sticky_exit_flag_quiet_for_polynomial_input : forall s, Inv s -> s.(ctx) = true -> s.(have_poly) = true ->
+  s.(err) = false -> s.(exitreq) = true -> s.(kind) <> KSecular ->
+  (fst (step Fixed s OSolve)).(err) = false /\ (fst (step Fixed s OSolve)).(exitreq) = true.
+Proof. exact exit_flag_quiet_for_polynomial_input. Qed.
+Print Assumptions C15_sticky_exit_flag_quiet_for_polynomial_input.
+
+Example C15_sticky_exit_flag_nonvacuous :
+  let s := fst (run Fixed [ONew; OAlgo AlgoS; OSetPoly 4 0 KSecular; OAbort]) in
+  let s' := fst (run Fixed [ONew; OAlgo AlgoS; OSetPoly 4 0 KChebyshev; OAbort]) in
+  Inv s /\ s.(exitreq) = true /\ s.(kind) = KSecular /\ (fst (step Fixed s OSolve)).(err) = true /\
+  Inv s' /\ s'.(kind) <> KSecular /\ (fst (step Fixed s' OSolve)).(err) = false.
+Proof.
+  cbv zeta. split; [apply run_Inv; repeat constructor; cbn; auto with zarith|].
+  split; [vm_compute; reflexivity|]. split; [vm_compute; reflexivity|]. split; [vm_compute; reflexivity|].
+  split; [apply run_Inv; repeat constructor; cbn; auto with zarith|]. split; [vm_compute; discriminate | vm_compute; reflexivity].
+Qed.
+
+(* ======================================================================================================
+   The widened operation set (Ctx/ApiModel.v): everything a user can interleave with solves --
+   mps_context_set_degree called directly, output precision / format, starting phase, jacobi / crude /
+   avoid-multiprecision switches, every polynomial kind (for the bookkeeping: monomial, monomial from .pol text,
+   secular equation, Chebyshev base), solves whose numerical part reports an [outcome]
+   (final phase, input precision exhausted, error raised), asynchronous solves, errors, abort, free of the
+   polynomial while set, free.  The allocation part is ResizeModel in its Fixed variant (= /repo HEAD);
+   the variant of this layer is Old = /repo today, Fixed = after fixes/C15_secular_over_max_reset.patch. *)
+
+Theorem C15_wide_accesses_in_bounds : forall (v : variant) (ops : list wop), Forall wop_wf ops ->
+  snd (wrun v ops) = true /\ (fst (wrun v ops)).(b).(leaked) = false.
+Proof. exact wide_accesses_in_bounds. Qed.
+Print Assumptions C15_wide_accesses_in_bounds.
+
+Example C15_wide_nonvacuous :
+  let h := [WNew; WSetPoly 3 0 KMonomial; WSolve (mkout false FloatPhase false); WSetDegree 9; WSetPoly 8 5 KMonomial;
+            WAlgo AlgoS; WStartPhase DpePhase; WSolveAsync (mkout false DpePhase false); WSetDegree 3; WSetDegree 1;
+            WSetPoly 20 0 KChebyshev; WAlgo AlgoU; WSolve (mkout false NoPhase true); WGetRoots; WFreePoly] in
+  Forall wop_wf h /\ (fst (wrun Old h)).(b).(n) = 20 /\ (fst (wrun Old h)).(b).(alloc) Spar1 = 22 /\
+  (fst (wrun Old h)).(b).(err) = true /\ (fst (wrun Old h)).(b).(pools) = 1.
+Proof. split; [repeat constructor; cbn; try discriminate; auto with zarith | repeat split; vm_compute; reflexivity]. Qed.
+
+Theorem C15_wide_release : forall (v : variant) (ops : list wop), Forall wop_wf ops ->
+  released (fst (wrun v (ops ++ [WFree]))).(b).
+Proof. exact wide_release. Qed.
+Print Assumptions C15_wide_release.
+
+(* lifetime of the helper secular equation: whenever the context holds one, the work arrays are allocated and the
+   helper has exactly the current number of roots (it is never carried over a change of degree) *)
+Theorem C15_wide_helper_matches_degree : forall (v : variant) (ops : list wop) (m : Z), Forall wop_wf ops ->
+  (fst (wrun v ops)).(b).(sec) = Some m ->
+  m = (fst (wrun v ops)).(b).(n) /\ (fst (wrun v ops)).(b).(init) = true.
+Proof. exact wide_helper_matches_degree. Qed.
+Print Assumptions C15_wide_helper_matches_degree.
+
+Example C15_wide_helper_nonvacuous :
+  (fst (wrun Old [WNew; WSetPoly 7 2 KMonomial; WAlgo AlgoS; WSolve (mkout false FloatPhase false)])).(b).(sec) = Some 5.
+Proof. vm_compute. reflexivity. Qed.
+
+Theorem C15_wide_history_independent : forall (v : variant) h d z k a g,
+  Forall wop_wf h -> op_wf (OSetPoly d z k) ->
+  let w := fst (wrun v (h ++ [WSetPoly d z k; WAlgo a; WGoal g])) in
+  w.(b).(ctx) = true ->
+  snd (solve_prepare w.(b)) = true /\ config (fst (solve_prepare w.(b))) = fresh_config (d - z) z a g.
+Proof. exact wide_history_independent. Qed.
+Print Assumptions C15_wide_history_independent.
+
+(* the flags a user reads after a solve (mps_context_get_over_max, lastphase, mps_context_has_errors) are those of
+   this solve's own numerical part: standard algorithm in both variants, secular algorithm after the repair *)
+Theorem C15_wide_flags_after_solve : forall (v : variant) w oc (async : bool),
+  w.(b).(ctx) = true -> w.(b).(have_poly) = true -> w.(b).(err) = false ->
+  (w.(b).(alg) = AlgoU \/ (v = Fixed /\ forced w.(b) = false)) ->
+  let w' := fst (wstep v w (if async then WSolveAsync oc else WSolve oc)) in
+  w'.(over) = oc.(o_over) /\ w'.(lphase) = oc.(o_phase) /\
+  w'.(b).(err) = (match w.(b).(alg) with AlgoU => oc.(o_err) | AlgoS => false end).
+Proof. exact wide_flags_after_solve. Qed.
+Print Assumptions C15_wide_flags_after_solve.
+
+(* ... and as the code is today the secular algorithm leaves over_max of an earlier solve in place: same settings,
+   same polynomial, same numerical outcome, different answer of mps_context_get_over_max than a fresh context.
+   Replayed on the real library by checks/C15.py (witness_stale_over_max_secular). *)
+Theorem C15_wide_over_max_secular_refuted :
+  exists h f oc, Forall wop_wf h /\ Forall wop_wf f /\ oc.(o_over) = false /\
+    settings (fst (wrun Old h)) = settings (fst (wrun Old f)) /\
+    (fst (wrun Old (h ++ [WSolve oc]))).(over) = true /\ (fst (wrun Old (f ++ [WSolve oc]))).(over) = false /\
+    (fst (wrun Fixed (h ++ [WSolve oc]))).(over) = false.
+Proof. exact wide_over_max_secular_refuted. Qed.
+Print Assumptions C15_wide_over_max_secular_refuted.
+
+(* settings are changed by their own setter (and by new / free) only: no solve, set_input_poly, set_degree,
+   get_roots, error or abort touches them *)
+Theorem C15_wide_settings_frame : forall (v : variant) w o, w.(b).(ctx) = true ->
+  settings (fst (wstep v w o)) =
+  match o with
+  | WAlgo a => (w.(oprec), w.(ofmt), w.(sphase), w.(jac), w.(crude), w.(avoidmp), a, w.(b).(gl))
+  | WGoal g => (w.(oprec), w.(ofmt), w.(sphase), w.(jac), w.(crude), w.(avoidmp), w.(b).(alg), g)
+  | WPrec p => (p, w.(ofmt), w.(sphase), w.(jac), w.(crude), w.(avoidmp), w.(b).(alg), w.(b).(gl))
+  | WFormat f => (w.(oprec), f, w.(sphase), w.(jac), w.(crude), w.(avoidmp), w.(b).(alg), w.(b).(gl))
+  | WStartPhase ph => (w.(oprec), w.(ofmt), ph, w.(jac), w.(crude), w.(avoidmp), w.(b).(alg), w.(b).(gl))
+  | WJacobi x => (w.(oprec), w.(ofmt), w.(sphase), x, w.(crude), w.(avoidmp), w.(b).(alg), w.(b).(gl))
+  | WCrude x => (w.(oprec), w.(ofmt), w.(sphase), w.(jac), x, w.(avoidmp), w.(b).(alg), w.(b).(gl))
+  | WAvoidMp x => (w.(oprec), w.(ofmt), w.(sphase), w.(jac), w.(crude), x, w.(b).(alg), w.(b).(gl))
+  | WFree => settings wempty
+  | _ => settings w
+  end.
+Proof. exact wide_settings_frame. Qed.
+Print Assumptions C15_wide_settings_frame.
